@@ -197,6 +197,21 @@ func (p *IdentityProvider) ssoHandleFunc(w http.ResponseWriter, r *http.Request)
 		},
 	)
 
+	// check if the protocolbinding can be used to answer, before anything is persisted
+	checkerInstance.WithLogicStep(
+		func() error {
+			switch response.ProtocolBinding {
+			case RedirectBinding, PostBinding:
+				return nil
+			}
+			err = fmt.Errorf("unsupported binding: %s", response.ProtocolBinding)
+			return err
+		},
+		func() {
+			response.sendBackResponse(r, w, response.makeFailedResponse(StatusCodeUnsupportedBinding, err.Error(), p.TimeFormat))
+		},
+	)
+
 	checkerInstance.WithLogicStep(
 		checkRequestRequiredContent(
 			func() *md.IDPSSODescriptorType { return metadata },
